@@ -19,7 +19,10 @@ Terms (nested tuples):
   ("set", base)                     membership only
   ("op", name, base, extra)         sorted / reversed / set-as-sequence / ...
   ("lit", texts)                    list literal with elements
+  ("flatmap", base, gen_text)       yield from gen(x) for x in base
+  ("gen", text)                     the stream of a generator call
   ("opaque", why)
+The pseudo variable "<yield>" holds the stream a generator function yields.
 Element variables are renamed: `_` (single target), `_k` / `_v` (dict items).
 `refs` is a tuple of (name, term) for tracked collections mentioned in the
 text (e.g. the set a membership test reads), snapshotted at that point.
@@ -66,6 +69,10 @@ def pretty(t, depth: int = 0) -> str:
         return f"{t[1]}({pretty(t[2])}{', ' + t[3] if t[3] else ''})"
     if k == "lit":
         return "[" + ", ".join(t[1]) + "]"
+    if k == "flatmap":
+        return f"flatmap({pretty(t[1])}, {t[2]})"
+    if k == "gen":
+        return f"gen({t[1]})"
     return f"<{k}: {t[1] if len(t) > 1 else ''}>"
 
 
@@ -78,7 +85,7 @@ def subterms(t):
             if x and isinstance(x[0], str) and x[0] in (
                     "src", "empty", "emptydict", "filter", "map", "concat",
                     "group", "dictmap", "items", "values", "keys", "set", "op",
-                    "lit", "opaque"):
+                    "lit", "opaque", "flatmap", "gen"):
                 yield from subterms(x)
             else:
                 # pred = (text, refs) or refs = ((name, term), ...)
@@ -95,7 +102,7 @@ def spine(t):
         return
     yield t
     k = t[0]
-    if k in ("filter", "map", "items", "values", "keys", "set"):
+    if k in ("filter", "map", "items", "values", "keys", "set", "flatmap"):
         yield from spine(t[1])
     elif k == "concat":
         yield from spine(t[1])
@@ -139,17 +146,42 @@ class CollAlg:
     path to its term at the end; `returns` the returned expressions;
     `snapshots[(name, lineno)]` terms at definition points."""
 
-    def __init__(self, fn: FunctionInfo):
+    def __init__(self, fn: FunctionInfo, consts: dict | None = None):
         self.fn = fn
+        self.consts = consts or {}   # dotted name -> constant / TRUTHY / FALSY
         self.env: dict[str, tuple] = {}
         self.returns: list[ast.AST] = []
         self.notes: list[str] = []
         self.aliases: dict[str, set[str]] = {}
+        self._fn_defs = None
+        self.done = False
+        # flow-sensitive: latest straight-line definition of a plain local
+        self.plain: dict[str, ast.AST] = {}
         self.block(fn.node.body)
 
     # -- expressions ------------------------------------------------------------
+    def fn_temps(self, temps) -> dict[str, ast.AST]:
+        """Loop-body temporaries plus the function's single-definition
+        locals that are not tracked collections (so `x = a.b[c]; f(x)` reads
+        `f(a.b[c])`)."""
+        if self._fn_defs is None:
+            from sa.valuation import single_defs
+            self._fn_defs = single_defs(self.fn)
+        out = {k: v for k, v in self._fn_defs.items()
+               if (k not in self.env or self.env[k][0] == "opaque") and
+               self.lookup_kind(v) == "plain"}
+        out.update(self.plain)
+        out.update(temps or {})
+        return out
+
+    def lookup_kind(self, v: ast.AST) -> str:
+        if isinstance(v, (ast.ListComp, ast.SetComp, ast.DictComp,
+                          ast.GeneratorExp, ast.List, ast.Dict, ast.Set)):
+            return "collection"
+        return "plain"
+
     def text(self, e: ast.AST, rename=None, temps=None) -> str:
-        x = _Subst(rename or {}, temps or {}).visit(copy.deepcopy(e))
+        x = _Subst(rename or {}, self.fn_temps(temps)).visit(copy.deepcopy(e))
         return ast.unparse(ast.fix_missing_locations(x))
 
     def refs(self, e: ast.AST, rename=None, temps=None) -> tuple:
@@ -228,9 +260,17 @@ class CollAlg:
         got = self.lookup(e)
         if got is not None:
             return got
-        if isinstance(e, ast.List):
+        if isinstance(e, ast.IfExp):
+            from sa.cfg import truth
+            t = truth(e.test, self.consts)
+            if t is True:
+                return self.term(e.body)
+            if t is False:
+                return self.term(e.orelse)
+            return ("opaque", "conditional expression")
+        if isinstance(e, (ast.List, ast.Tuple)):
             return ("empty", ) if not e.elts else ("lit", tuple(
-                ast.unparse(x) for x in e.elts))
+                self.text(x) for x in e.elts))
         if isinstance(e, ast.Dict) and not e.keys:
             return ("emptydict", "dict")
         if isinstance(e, (ast.ListComp, ast.GeneratorExp, ast.DictComp)):
@@ -279,9 +319,30 @@ class CollAlg:
         return ("map", ("items", d), ident, ())
 
     # -- statements -------------------------------------------------------------------
+    def emit(self, t) -> None:
+        # flatmap over a literal tuple: one generator call per element
+        if t[0] == "flatmap" and t[1][0] == "lit":
+            for x in t[1][1]:
+                self.emit(("gen", _replace_elem(t[2], x)))
+            return
+        if t[0] == "flatmap" and t[1][0] == "map":
+            # flatmap(map(B, m), g) = flatmap(B, g[_ := m])
+            self.emit(("flatmap", t[1][1], _replace_elem(t[2], t[1][2])))
+            return
+        cur = self.env.get("<yield>", ("empty", ))
+        self.env["<yield>"] = ("concat", cur, t)
+
+    def stream(self, e: ast.AST):
+        """Term of the operand of `yield from`."""
+        t = self.term(e)
+        if t[0] == "opaque" and isinstance(e, ast.Call):
+            return ("gen", self.text(e))
+        return t
+
     def opaque_all(self, names, why: str) -> None:
         for n in names:
             self.env[n] = ("opaque", why)
+            self.plain.pop(n, None)
 
     def assigned_in(self, stmts) -> set[str]:
         out = set()
@@ -306,6 +367,8 @@ class CollAlg:
 
     def block(self, stmts) -> None:
         for s in stmts:
+            if self.done:
+                return
             self.stmt(s)
 
     def mutate(self, call: ast.Call, base=None, ren=None, temps=None,
@@ -371,21 +434,51 @@ class CollAlg:
                         self.env[dotted(t.value)] = ("opaque", "item assignment")
                     continue
                 self.env[d] = self.term(s.value)
+                if isinstance(t, ast.Name):
+                    if self.env[d][0] == "opaque" and self.lookup_kind(
+                            s.value) == "plain":
+                        # resolve now: later rebinding of names it mentions
+                        # must not change its meaning
+                        self.plain[d] = _Subst({}, self.fn_temps(None)).visit(
+                            copy.deepcopy(s.value))
+                    else:
+                        self.plain.pop(d, None)
             return
         if isinstance(s, ast.Expr) and isinstance(s.value, ast.Call):
             self.mutate(s.value)
             return
+        if isinstance(s, ast.Expr) and isinstance(s.value, ast.YieldFrom):
+            self.emit(self.stream(s.value.value))
+            return
+        if isinstance(s, ast.Expr) and isinstance(s.value, ast.Yield):
+            self.emit(("lit", (self.text(s.value.value)
+                               if s.value.value is not None else "None", )))
+            return
         if isinstance(s, ast.Return):
             if s.value is not None:
                 self.returns.append(s.value)
+            self.done = True  # reached only on the path being interpreted
             return
         if isinstance(s, (ast.For, ast.AsyncFor)):
             self.loop(s)
             return
         if isinstance(s, ast.If):
             from sa.context import raises_in
+            from sa.cfg import truth
+            t = truth(s.test, self.consts)
+            if t is True:
+                self.block(s.body)
+                return
+            if t is False:
+                self.block(s.orelse)
+                return
             if raises_in(s.body) and not s.orelse:
                 return  # validation
+            if any(isinstance(x, ast.Return) for b in s.body + s.orelse
+                   for x in ast.walk(b)):
+                self.notes.append(f"L{s.lineno}: return under a condition "
+                                  "that is not constant here")
+                self.opaque_all(["<yield>"], "conditional return")
             touched = self.assigned_in(s.body) | self.assigned_in(s.orelse)
             self.opaque_all(touched & (set(self.env) | touched),
                             "assigned under a condition")
@@ -411,6 +504,9 @@ class CollAlg:
         if kind == "values":
             pass
         touched = self.assigned_in(s.body)
+        for n in list(self.plain):
+            if n in touched or n in (ren or {}):
+                self.plain.pop(n)
         if ren is None or s.orelse:
             self.opaque_all(touched, "loop shape")
             return
@@ -448,6 +544,18 @@ class CollAlg:
                 continue  # numeric accounting: not a collection effect
             if isinstance(s, ast.Expr) and isinstance(s.value, ast.Call):
                 self.mutate(s.value, base, ren, temps, guard)
+                continue
+            if isinstance(s, ast.Expr) and isinstance(
+                    s.value, (ast.Yield, ast.YieldFrom)):
+                b = base
+                for g in guard:
+                    b = ("filter", b, g)
+                v = s.value.value
+                txt = self.text(v, ren, temps) if v is not None else "None"
+                if isinstance(s.value, ast.YieldFrom):
+                    self.emit(("flatmap", b, txt))
+                else:
+                    self.emit(b if txt == "_" else ("map", b, txt, ()))
                 continue
             if isinstance(s, ast.Expr):
                 continue
@@ -493,3 +601,17 @@ def reordering_on_path(t) -> list[str]:
 
 def sources(t) -> set[str]:
     return {x[1] for x in spine(t) if x[0] == "src"}
+
+
+def _replace_elem(text: str, value: str) -> str:
+    """`text` with the element variable `_` replaced by the expression
+    `value`."""
+    e = ast.parse(text, mode="eval").body
+    v = ast.parse(value, mode="eval").body
+
+    class R(ast.NodeTransformer):
+
+        def visit_Name(self, node):
+            return copy.deepcopy(v) if node.id == "_" else node
+
+    return ast.unparse(ast.fix_missing_locations(R().visit(e)))
